@@ -146,6 +146,9 @@ func migrateSingleObject(ctx context.Context, source, destination storage.Storag
 	}
 
 	adapter := NewStorageToS3UploadAPIClientAdapter(destination)
+	// The SDK input carries Expires as a time.Time; hand the stored raw header
+	// value to the adapter so it arrives unchanged.
+	adapter.rawExpires = srcObject.Metadata.Expires
 	uploader := manager.NewUploader(adapter, func(u *manager.Uploader) {
 		u.Concurrency = 1
 	})
@@ -244,6 +247,9 @@ func decodeTaggingHeader(tagging *string) (map[string]string, error) {
 // Adapter from storage to manager.UploadAPIClient
 type StorageToS3UploadAPIClientAdapter struct {
 	storage storage.Storage
+	// rawExpires, when set, is stored as the Expires metadata of the uploaded
+	// object instead of the (parsed and reformatted) SDK input value.
+	rawExpires *string
 }
 
 func NewStorageToS3UploadAPIClientAdapter(storage storage.Storage) *StorageToS3UploadAPIClientAdapter {
@@ -252,12 +258,25 @@ func NewStorageToS3UploadAPIClientAdapter(storage storage.Storage) *StorageToS3U
 	}
 }
 
+// withRawExpires replaces the Expires value reassembled from the SDK input by
+// the raw value handed to the adapter, if any.
+func (a *StorageToS3UploadAPIClientAdapter) withRawExpires(metadata *storage.ObjectMetadata) *storage.ObjectMetadata {
+	if a.rawExpires == nil {
+		return metadata
+	}
+	if metadata == nil {
+		metadata = &storage.ObjectMetadata{}
+	}
+	metadata.Expires = a.rawExpires
+	return metadata
+}
+
 func (a *StorageToS3UploadAPIClientAdapter) CreateMultipartUpload(ctx context.Context, input *s3.CreateMultipartUploadInput, opts ...func(*s3.Options)) (*s3.CreateMultipartUploadOutput, error) {
 	tags, err := decodeTaggingHeader(input.Tagging)
 	if err != nil {
 		return nil, err
 	}
-	metadata := objectMetadataFromSDKInput(input.CacheControl, input.ContentDisposition, input.ContentEncoding, input.ContentLanguage, input.Expires, input.WebsiteRedirectLocation, input.Metadata)
+	metadata := a.withRawExpires(objectMetadataFromSDKInput(input.CacheControl, input.ContentDisposition, input.ContentEncoding, input.ContentLanguage, input.Expires, input.WebsiteRedirectLocation, input.Metadata))
 	storageClass := storageClassFromSDKInput(input.StorageClass)
 	var createOpts *storage.CreateMultipartUploadOptions
 	if len(tags) > 0 || metadata != nil || storageClass != nil {
@@ -344,7 +363,7 @@ func (a *StorageToS3UploadAPIClientAdapter) PutObject(ctx context.Context, input
 	if err != nil {
 		return nil, err
 	}
-	metadata := objectMetadataFromSDKInput(input.CacheControl, input.ContentDisposition, input.ContentEncoding, input.ContentLanguage, input.Expires, input.WebsiteRedirectLocation, input.Metadata)
+	metadata := a.withRawExpires(objectMetadataFromSDKInput(input.CacheControl, input.ContentDisposition, input.ContentEncoding, input.ContentLanguage, input.Expires, input.WebsiteRedirectLocation, input.Metadata))
 	storageClass := storageClassFromSDKInput(input.StorageClass)
 	var putObjectOptions *storage.PutObjectOptions
 	if len(tags) > 0 || metadata != nil || storageClass != nil {
